@@ -38,7 +38,7 @@ pub const POOL_SIZES: [usize; 6] = [1, 2, 3, 4, 16, 64];
 
 // ------------------------------------------------------------------------------ C07
 
-pub const C07_RULE: &str = "positions including checkmated, stalemated, single-legal-move and in-check ones (cage / pin-check themes, placements, endgames, reachable walks), half-move clock 0..150 and 0..3 prior registrations of the position (so draw-by-history states with legal moves are included), depth 0..5 (3 only for <= 8 men, 4 for <= 4 men, 5 for <= 3 men), rayon pools of 1/2/3/4/16/64 threads, through alpha_beta_search with a new or a used generator (optionally followed by a second search with the same context on the same position or on the same placement with the other side to move) and through Game::select_alpha_beta_best_move: depth 0 -> Err(DepthTooLow) (a terminal position at depth 0 may report either declared error); no legal move and depth >= 1 -> Err(NoAvailableMoves); otherwise Ok(move) whose (kind, from, to, promotion, captured) is in the reference legal set; full observable snapshot identical before and after; no panic. Non-trivial = terminal, single legal move, in check, depth 0, clock >= 100 or repetition count 3 with legal moves, or pool size != 1; distinct = hash of the case.";
+pub const C07_RULE: &str = "positions including checkmated, stalemated, single-legal-move and in-check ones (cage / pin-check themes, placements, endgames, reachable walks), half-move clock 0..150 and 0..3 prior registrations of the position (so draw-by-history states with legal moves are included), depth 0..5 (3 only for <= 8 men, 4 for <= 4 men, 5 for <= 3 men), rayon pools of 1/2/3/4/16/64 threads, through alpha_beta_search with a new or a used generator (optionally followed by a second search with the same context on the same position or on the same placement with the other side to move) and through Game::select_alpha_beta_best_move: depth 0 -> Err(DepthTooLow) (a terminal position at depth 0 may report either declared error); no legal move and depth >= 1 -> Err(NoAvailableMoves); otherwise Ok(move) whose (kind, from, to, promotion, captured) is in the reference legal set; full observable snapshot identical before and after; no panic. Heavy context: one SearchContext serves depth-4 searches of tiny endgames until several hundred thousand nodes have passed through its cache. Non-trivial = terminal, single legal move, in check, depth 0, clock >= 100 or repetition count 3 with legal moves, or pool size != 1; distinct = hash of the case.";
 
 #[derive(Clone, Debug, Serialize, Deserialize)]
 pub struct SearchCase {
@@ -288,6 +288,96 @@ impl Prop for C07Searches {
         }
         Ok(())
     }
+}
+
+/// One SearchContext serves searches until several hundred thousand nodes have gone through
+/// its cache (a long engine session): every answer must still be a legal move. A search that
+/// does not come back within ten minutes is reported as inconclusive (exit 2), not a violation.
+fn run_c07_heavy_context(env: &Env, agg: &mut Stats) -> Option<Violation> {
+    use proptest::strategy::ValueTree;
+    use proptest::test_runner::{Config, RngAlgorithm, TestRng, TestRunner};
+    let name = "C07/heavy-context";
+    let target_nodes: usize = env.tier.pick(320_000, 1_500_000);
+    let mut runner = TestRunner::new_with_rng(
+        Config::default(),
+        TestRng::from_seed(RngAlgorithm::ChaCha, &derive_seed(env.seed, name, 0)),
+    );
+    let strat = prop_oneof![
+        3 => gen::endgame(2).prop_map(|r| gen::build(&r)),
+        1 => gen::pawn_race().prop_map(|r| gen::build(&r)),
+    ];
+    let mut ctx = SearchContext::new(4);
+    let mut g = MoveGenerator::new();
+    let mut total = 0usize;
+    let mut searches = 0u64;
+    let p = pool(4);
+    while total < target_nodes && searches < 4000 {
+        let mut pos = match strat.new_tree(&mut runner) {
+            Ok(t) => t.current(),
+            Err(_) => break,
+        };
+        pos.half = 0;
+        if pos.men() > 4 || !pos.has_legal_move(pos.side) {
+            continue;
+        }
+        let legal = pos.legal_moves();
+        let mut board = to_board(&pos);
+        // the search runs on a helper thread so that a hang can be told from slowness
+        let (tx, rx) = std::sync::mpsc::channel();
+        let r = std::thread::scope(|sc| {
+            sc.spawn(|| {
+                let r = no_panic(|| p.install(|| alpha_beta_search(&mut ctx, &mut board, &mut g)));
+                let _ = tx.send(r);
+            });
+            match rx.recv_timeout(std::time::Duration::from_secs(600)) {
+                Ok(r) => r,
+                Err(_) => {
+                    eprintln!(
+                        "INCONCLUSIVE: a depth-4 search of {} on a context that has cached about {} nodes did not return within 600 s",
+                        pos.fen(),
+                        total
+                    );
+                    std::process::exit(2);
+                }
+            }
+        });
+        searches += 1;
+        agg.eval();
+        total += ctx.searched_position_count();
+        match r {
+            Ok(Ok(m)) => {
+                if !legal.contains(&mv_of(&m)) {
+                    return Some(violation(
+                        name,
+                        json!({"fen": pos.fen(), "searches_before": searches}),
+                        fail_pos(format!("search #{} on one long-lived context returned {}, which is not legal", searches, mv_text(&mv_of(&m))), &pos),
+                    ));
+                }
+            }
+            Ok(Err(e)) => {
+                return Some(violation(name, json!({"fen": pos.fen(), "searches_before": searches}), fail_pos(format!("search #{} on one long-lived context failed: {:?}", searches, e), &pos)))
+            }
+            Err(m) => {
+                return Some(violation(name, json!({"fen": pos.fen(), "searches_before": searches}), fail_pos(format!("search #{} on one long-lived context panicked: {}", searches, m), &pos)))
+            }
+        }
+        if searches % 16 == 1 {
+            agg.nontrivial(pos.fingerprint(), || json!({"fen": pos.fen(), "nodes_through_the_context_so_far": total}));
+        }
+    }
+    agg.count("nodes_through_one_context", total as u64);
+    None
+}
+
+pub fn c07_checks() -> Vec<Box<dyn DynCheck>> {
+    vec![
+        Box::new(C07Searches),
+        Box::new(FnCheck {
+            name: "C07/heavy-context",
+            run: run_c07_heavy_context,
+            replay: |_| Err("re-run the check".into()),
+        }),
+    ]
 }
 
 // ------------------------------------------------------------------------------ C08
